@@ -16,6 +16,8 @@ def plan(tier, seed):
         jobs += rejections.jobs("C18", tier)
     except ImportError:
         pass
+    jobs.append(ch("C18", "vf/pyshim/h_labels.py", "h_label_refused_early", t,
+                   ["util.get_column_metadata (up-front label check)", "writer.make_row_group (late label check)"]))
     jobs.append(ch("C18", "vf/pyshim/h_write.py", "h_write_append_options", t,
                    ["writer.write (append branch: up-front refusals)"]))
     jobs.append(ch("C18", "vf/pyshim/h_c05.py", "h_unknown_filter_column", t, ["api.filter_row_groups (column check)"]))
